@@ -7,7 +7,7 @@ from xml.sax.saxutils import escape, quoteattr
 from bs4 import BeautifulSoup
 
 from .base import (
-    DFXPWriter, DFXP_DEFAULT_REGION, _AttributeEscapingFormatter,
+    DFXPWriter, DFXP_DEFAULT_REGION, _AttributeEscapingFormatter, _unused_id,
 )
 from ..base import BaseWriter, CaptionNode, merge_concurrent_captions
 
@@ -116,8 +116,12 @@ class LegacyDFXPWriter(BaseWriter):
 
         # XXX For now we will always use this default region. In the future if
         # regions are provided, they will be kept
+        # (its id must not repeat the id of a style)
+        region_id = _unused_id(
+            LEGACY_DFXP_DEFAULT_REGION_ID,
+            {style_id for style_id, _ in caption_set.get_styles()})
         dfxp = self._recreate_region_tag(
-            LEGACY_DFXP_DEFAULT_REGION_ID, LEGACY_DFXP_DEFAULT_REGION, dfxp)
+            region_id, LEGACY_DFXP_DEFAULT_REGION, dfxp)
 
         body = dfxp.find('body')
 
@@ -134,10 +138,10 @@ class LegacyDFXPWriter(BaseWriter):
                 if caption.style:
                     caption_style = caption.style
                     caption_style.update(
-                        {'region': LEGACY_DFXP_DEFAULT_REGION_ID})
+                        {'region': region_id})
                 else:
                     caption_style = {'class': LEGACY_DFXP_DEFAULT_STYLE_ID,
-                                     'region': LEGACY_DFXP_DEFAULT_REGION_ID}
+                                     'region': region_id}
                 p = self._recreate_p_tag(caption, caption_style, dfxp)
                 div.append(p)
 
